@@ -28,6 +28,9 @@ VLong == { [tag |-> 1, len |-> 55], [tag |-> 2, len |-> 56], [tag |-> 3, len |->
 KShare == { <<0,0,10,10>>, <<0,1,10,10>>, <<1,0,10,10>>, <<0,0,10,11>>, <<0,1,10,11>>, <<10,10>> }
 LShare == KShare \cup { <<0,0>>, <<0,0,10,0>>, <<>> , <<0,1,10,10,0,0>>}
 VShare == { [tag |-> 200, len |-> 33], [tag |-> 201, len |-> 40] }
+\* twin leaves (identical bytes under different parents) with few keys
+KTwin == { <<0,0,10,10>>, <<0,1,10,10>>, <<10,10>> }
+LTwin == KTwin \cup { <<0,0>>, <<>>, <<0,0,10,10,0,0>> }
 \* one key, two long values: every behaviour up to a depth (history-unfolded runs)
 KOne == { <<0,0>> }
 LOne == { <<0,0>>, <<>>, <<0,0,0,0>> }
